@@ -1,0 +1,31 @@
+//go:build verif
+
+package deployment
+
+import (
+	"context"
+
+	apps "k8s.io/api/apps/v1"
+	clientset "k8s.io/client-go/kubernetes"
+	appslisters "k8s.io/client-go/listers/apps/v1"
+	"k8s.io/client-go/tools/record"
+	"sigs.k8s.io/controller-runtime/pkg/client"
+)
+
+// Verification hooks (build tag verif): build the advanced Deployment reconciler from explicit
+// clients/listers instead of a manager.
+
+func NewReconcilerForVerif(cli client.Client, kube clientset.Interface, dLister appslisters.DeploymentLister, rsLister appslisters.ReplicaSetLister, recorder record.EventRecorder) *ReconcileDeployment {
+	factory := &controllerFactory{client: kube, eventRecorder: recorder, dLister: dLister, rsLister: rsLister}
+	return &ReconcileDeployment{Client: cli, controllerFactory: factory}
+}
+
+// SyncForVerif runs one syncDeployment of the controller NewController builds for d (nil
+// controller => not under control, returns false).
+func (r *ReconcileDeployment) SyncForVerif(ctx context.Context, d *apps.Deployment) (bool, error) {
+	dc := r.controllerFactory.NewController(d)
+	if dc == nil {
+		return false, nil
+	}
+	return true, dc.syncDeployment(ctx, d)
+}
